@@ -267,10 +267,14 @@ func (r *Run) Finish(rule string) int {
 	sort.Strings(sigs)
 	exit := 0
 	unknown := 0
-	os.MkdirAll(filepath.Join(Root, "replays"), 0o755)
+	replayDir := filepath.Join(Root, "replays")
+	if d := os.Getenv("VERIF_REPLAY_DIR"); d != "" {
+		replayDir = d // development runs against another checkout keep their replays out of /verif/replays
+	}
+	os.MkdirAll(replayDir, 0o755)
 	for _, s := range sigs {
 		v := r.violations[s]
-		path := filepath.Join(Root, "replays", r.Property+"-"+sigFile(s)+".json")
+		path := filepath.Join(replayDir, r.Property+"-"+sigFile(s)+".json")
 		b, _ := json.MarshalIndent(map[string]interface{}{"property": r.Property, "signature": v.Signature,
 			"monitor": v.Monitor, "message": v.Message, "replay": v.Replay, "occurrences": r.vioCount[s]}, "", " ")
 		os.WriteFile(path, b, 0o644)
